@@ -131,6 +131,27 @@ CLAIMED = {
         design="§4 C19", technique="Coq proof (ring-generic induction; exact integer arithmetic on regenerated dyadic tables) + tolerance differential vs the float/double code",
         note=PROOF_NOTE + "  The theorems are exact-arithmetic statements; that the float/double instantiations stay within the stated tolerance of the exact model, "
              "and that std::exp yields an N-th root of unity to rounding, is tested only."),
+    "C15": dict(
+        text="Machine-checked proof (Coq) over a small-step interleaving semantics of queue.h (one labelled step per statement that touches shared state or "
+             "synchronises; condition variables with notify/timeout/spurious wake-ups; arbitrary scheduler and clock; any number of threads, any operation "
+             "sequences, any capacity): by induction over all reachable configurations the queue never exceeds its capacity, enq = deq ++ items (each accepted "
+             "item delivered at most once, in order, none lost), responses match commits and the history is linearizable to a sequential bounded FIFO, each "
+             "producer's items stay in order, and EVERY access to items/size_/state_ happens with the mutex held (race freedom, with fix 7d84b7c; which methods "
+             "take the lock is regenerated from the source on every run).  Tie: sequential differential, real-thread stress with the response oracle, trace "
+             "inclusion through the guarded hook (extracted checker proved sound and complete for the relation), ThreadSanitizer as support.",
+        design="§4 C15", technique="Coq proof (inductive invariants over an interleaving semantics) + trace inclusion via guarded hook + TSan stress",
+        note=PROOF_NOTE + "  The semantics of std::mutex/condition_variable/clocks is hand-written and trusted; real memory-model effects of a race, fairness and "
+             "libstdc++ internals are outside the model."),
+    "C16": dict(
+        text="Machine-checked proof (Coq) over the same interleaving model with the timeout arithmetic written out (int64 nanosecond wrap for finite "
+             "timeouts, the no-deadline branch for duration::max()): a put/get returns false only because its deadline was reached, the queue was not open "
+             "(put) or closed and empty (get), or a zero-timeout put found it full; an operation with the default timeout has no deadline and never times "
+             "out (fix 5bc9c51); close() empties both wait sets, no put commits after close, what was accepted can still be drained in order, and a closed "
+             "queue that is empty with no get mid-commit is CLOSED (fix 90c9014) so that gets fail at once without entering a wait.  Tie: real-time probes with "
+             "generous margins (blocked vs returned), stress traces through the hook.",
+        design="§4 C16", technique="Coq proof (inductive invariants, safety forms) + real-time probes on the compiled queue",
+        note=PROOF_NOTE + "  Liveness/fairness (a woken waiter eventually runs) is tested by the probes, not proved.  Observation: finite timeouts within ~292 years of "
+             "duration::max() in nanoseconds still wrap (c16_near_max_finite_timeout_wraps); the property speaks only of the default timeout."),
 }
 
 NOT_YET = {}
@@ -164,7 +185,7 @@ def main():
             "guard": "M17CXX_VERIF",
             "enable": "harnesses are compiled with -DM17CXX_VERIF against /repo/include (tools/vlib.py cxx_flags(hooks=True))",
             "baseline_off_cmd": "cmake --build /repo/_build -- -k 0 ; ctest --test-dir /repo/_build -j8 --timeout 900",
-            "source_commits": [],
+            "source_commits": ["8d45f30"],
             "add_only": True,
         },
         "engines": [{"name": "coq+differential", "path": "tools/check.py",
